@@ -47,6 +47,7 @@ type ktReg struct {
 	Off   int      `json:"off"`
 	Type  string   `json:"type"`
 	Named bool     `json:"named"`
+	NType string   `json:"ntype"`
 	Chg   []ktChg  `json:"chg"`
 	Kids  []string `json:"kids"`
 }
@@ -72,6 +73,9 @@ func ktAcct(name string) common.Address {
 	return common.BytesToAddress(append([]byte{0xac, 0xc0}, []byte(name)...))
 }
 func ktType(name string) common.Hash {
+	if name == "z" {
+		return common.Hash{} // the zero type id: an ordinary type as far as registrations and lookups go
+	}
 	return common.BytesToHash(append([]byte{0x77}, []byte(name)...))
 }
 func ktVal(v string) []byte { return []byte("val-" + v) }
@@ -314,6 +318,25 @@ func ktRun(h *ktHistory) (out []ktMismatch) {
 		}
 		if len(byName.Children()) != len(r.Kids) {
 			miss("kt.kids", "registered %v: %d Children(), %d registered", r.Path, len(byName.Children()), len(r.Kids))
+		}
+		// Children() and ChildrenIndices() list the same children in the same order: the i-th child is the record the i-th index reaches
+		if kids, kidx := byName.Children(), byName.ChildrenIndices(); len(kids) == len(kidx) {
+			for i := range kids {
+				if reached := sc.FindKeyIndices(a, r.Path[0], append(append([][]byte{}, idx...), kidx[i])...); reached != kids[i] {
+					miss("kt.kids", "registered %v: Children()[%d] is not the record its index %q reaches", r.Path, i, kidx[i])
+				}
+				if i > 0 && bytes.Compare(kidx[i-1], kidx[i]) >= 0 {
+					miss("kt.kids", "registered %v: ChildrenIndices %q not in increasing bytewise order", r.Path, kidx)
+				}
+			}
+		} else {
+			miss("kt.kids", "registered %v: %d Children() but %d ChildrenIndices()", r.Path, len(kids), len(kidx))
+		}
+		// node type (behaviour beyond the listed properties: reported as model drift, see lib/keytree.py)
+		if r.NType != "" {
+			if got := map[vm.NodeType]string{vm.RootNode: "root", vm.BranchNode: "branch", vm.DataNode: "data"}[byName.NodeType()]; got != r.NType {
+				miss("kt.ntype", "registered %v: NodeType %s, the model says %s", r.Path, got, r.NType)
+			}
 		}
 	}
 	return
